@@ -73,6 +73,8 @@ CHECKS = {
             unit("c20-race-helpers", "internal/common", ["zz_verif_c20_helpers_test.go"], "^TestVerifC20RaceHelpers$", race=True, env={"VERIF_RACE": "1"}),
             unit("c20-exppool", "keyproof", ["zz_verif_c20_test.go", "zz_verif_c17_test.go"], "^TestVerifC20ExpPool$", shards={"quick": 12, "thorough": 16},
                  instr=["keyproof/exp.go"], cpus=3),
+            unit("c20-stop-drain", "gabikeys", ["zz_verif_c16_stop_test.go"], "^TestVerifC16StopDrain$", shards={"quick": 4, "thorough": 8},
+                 instr=["safeprime/safeprime.go", "gabikeys/keys.go"]),
             unit("c20-race-keyproof", "keyproof", ["zz_verif_c20_test.go", "zz_verif_c17_test.go"], "^TestVerifC20RaceKeyproof$", race=True, env={"VERIF_RACE": "1"}),
             unit("c20-race-keygen", "gabikeys", ["zz_verif_c20_test.go", "zz_verif_c16_gen_test.go", "zz_verif_c16_stop_test.go"], "^TestVerifC20RaceKeygen$", race=True, env={"VERIF_RACE": "1"}),
         ],
@@ -81,7 +83,7 @@ CHECKS = {
     "C16": {
         "level": "model_checking",
         "units": [
-            unit("c16-stop", "gabikeys", ["zz_verif_c16_stop_test.go"], "^TestVerifC16Stop$", shards={"quick": 16, "thorough": 16},
+            unit("c16-stop", "gabikeys", ["zz_verif_c16_stop_test.go"], "^TestVerifC16Stop(Drain)?$", shards={"quick": 16, "thorough": 16},
                  instr=["safeprime/safeprime.go", "gabikeys/keys.go"]),
             unit("c16-gen", "gabikeys", ["zz_verif_c16_gen_test.go", "zz_verif_c16_stop_test.go"], "^TestVerifC16(Generator|Lengths)$", shards={"quick": 12, "thorough": 16}),
             unit("c20-race-helpers", "internal/common", ["zz_verif_c20_helpers_test.go"], "^TestVerifC20RaceHelpers$", race=True, env={"VERIF_RACE": "1"}),
